@@ -42,6 +42,7 @@ type commitLog struct {
 	compactCleaner   *compactCleaner
 	name             string
 	mu               sync.RWMutex
+	cleanMu          sync.Mutex // Serializes Clean and Truncate
 	hw               int64
 	closed           chan struct{}
 	segments         []*segment
@@ -572,6 +573,12 @@ func (l *commitLog) IsClosed() bool {
 
 // Truncate removes all messages from the log starting at the given offset.
 func (l *commitLog) Truncate(offset int64) error {
+	// A clean works on a snapshot of the segment list between two critical
+	// sections of the log mutex and installs its result afterwards. A
+	// truncation in between would be undone by that swap (and compaction would
+	// rewrite segments the truncation is replacing), so wait for the clean.
+	l.cleanMu.Lock()
+	defer l.cleanMu.Unlock()
 	l.mu.Lock()
 	defer l.mu.Unlock()
 	seg, idx := findSegment(l.segments, offset)
@@ -792,6 +799,8 @@ func (l *commitLog) cleanerLoop() {
 
 // Clean applies retention and compaction rules against the log, if applicable.
 func (l *commitLog) Clean() error {
+	l.cleanMu.Lock()
+	defer l.cleanMu.Unlock()
 	l.mu.RLock()
 	oldSegments := l.segments
 	l.mu.RUnlock()
